@@ -558,5 +558,5 @@ def cases(max_ops):
 
 
 def checks(tier):
-    n, m = {"quick": (2000, 25), "thorough": (40000, 40)}.get(tier, (10, 25))
+    n, m = {"quick": (2000, 25), "thorough": (20000, 40)}.get(tier, (10, 25))
     return [Check("link_histories", fn_history, strategy=cases(m), examples=n)]
